@@ -28,3 +28,4 @@ def patch_elementpath():
     def float_new(cls, value, xsd_version=None):
         return orig_float_new(cls, realize(value), xsd_version)
     numeric.Float.__new__ = staticmethod(float_new)
+
